@@ -13,6 +13,8 @@ namespace Bioscrape
 class LawfulTransc (α : Type) [Field α] [LinearOrder α] [IsStrictOrderedRing α] [Transc α] : Prop where
   pow_natCast : ∀ (x : α) (n : ℕ), 0 < x → Transc.pow x (n : α) = x ^ n
   abs_eq : ∀ x : α, Transc.abs x = |x|
+  exp_pos : ∀ x : α, 0 < Transc.exp x
+  one_le_exp : ∀ x : α, 0 ≤ x → 1 ≤ Transc.exp x
 
 noncomputable instance : Transc ℝ where
   pow := Real.rpow
@@ -25,6 +27,8 @@ noncomputable instance : Transc ℝ where
 instance : LawfulTransc ℝ where
   pow_natCast x n _ := Real.rpow_natCast x n
   abs_eq _ := rfl
+  exp_pos x := Real.exp_pos x
+  one_le_exp x hx := Real.one_le_exp hx
 
 section
 variable {α : Type} [LinearOrder α]
